@@ -9,5 +9,5 @@ VERIF_REPO="$wt" VERIF_OUTTAG="mut$$" ./check "$id" "$tier" > "out/mut-$id-$(bas
 rc=$?
 git -C /repo worktree remove --force "$wt"
 rm -rf "out/$id/$tier-mut$$"
-echo "$(date +%H:%M:%S) $id $(basename $patch) rc=$rc $(grep -c '^VIOLATION' out/mut-$id-$(basename $patch .diff).log) violations; classes: $(grep -o '^  \[[^]]*\]' out/mut-$id-$(basename $patch .diff).log | sort | uniq -c | tr '\n' ' ' | cut -c1-300)" | tee -a out/mutcheck.log
+echo "$(date +%H:%M:%S) $id ${patch#/verif/} rc=$rc $(grep -c '^VIOLATION' out/mut-$id-$(basename $patch .diff).log) violations; classes: $(grep -o '^  \[[^]]*\]' out/mut-$id-$(basename $patch .diff).log | sort | uniq -c | tr '\n' ' ' | cut -c1-300)" | tee -a out/mutcheck.log >> selfmut/results.log
 exit $rc
